@@ -2,7 +2,7 @@
    every proof is [exact <lemma>].  Do not weaken: tools/vcheck.py pins the
    hash of this file's statements. *)
 From Coq Require Import String List NArith Bool.
-From CKB Require Import Codec.Molecule Codec.MoleculeProofs Codec.SchemaWf gen.Schema Codec.Compact Codec.CompactProofs Codec.UnclesVerify.
+From CKB Require Import Codec.Molecule Codec.MoleculeProofs Codec.SchemaWf gen.Schema Codec.Compact Codec.CompactProofs Codec.UnclesVerify Codec.Rounds Codec.RoundsProofs.
 Import ListNotations.
 
 (* ---- (a) decoding: total, and bounded by the input ------------------------ *)
@@ -138,6 +138,69 @@ Theorem c16_uncles_verify_old_refuted :
   uncles_verify true [7%N] [0%nat] [] = false.
 Proof. exact uncles_verify_old_refuted. Qed.
 
+(* ---- (d) the rounds of a compact block exchange -------------------------------
+   Codec/Rounds.v: the state kept per (compact block, peer) is the list of
+   indexes asked last; after a reply that still leaves something missing the
+   next request is sort_unstable (new misses ++ indexes asked last); an honest
+   peer answers item by item in request order; reconstruct_block consumes the
+   received uncles positionally in increasing compact order. *)
+
+(* a strictly increasing request: the honest reply is consumed in place — no
+   panic, the misses reported are strictly increasing, not among the requested
+   indexes and in range, and when nothing is missing the uncles are the
+   committed ones in the committed order *)
+Theorem c16_sorted_request_consumed_in_place : forall (U : Type) (full : list U) local idx,
+  local_ok full local -> strictly_increasing idx = true ->
+  exists us ms,
+    uncles_pass U (entries_from 0 local idx) 0 (honest_reply full idx) = UOk U us ms /\
+    strictly_increasing ms = true /\ (forall j, In j ms -> ~ In j idx /\ j < length full) /\
+    (ms = [] -> us = full).
+Proof. exact @sorted_request_consumed_in_place. Qed.
+
+(* the same through the transcription of Relayer::reconstruct_block *)
+Theorem c16_reconstruct_committed_uncles :
+  forall (tx SID : Type) (sid_eqb : SID -> SID -> bool) (sid_of : tx -> SID) (U R : Type)
+         (R_eqb : R -> R -> bool) (root : list tx -> R) (pool : SID -> option tx)
+         (cb : cblock tx SID U R) recv (full : list U) local idx txs us h,
+  cb_uncles tx SID U R cb = entries_from 0 local idx ->
+  local_ok full local -> strictly_increasing idx = true ->
+  reconstruct tx SID sid_eqb sid_of U R R_eqb root pool cb recv (honest_reply full idx) = Some (RBlock txs us h) ->
+  us = full.
+Proof. exact reconstruct_committed_uncles. Qed.
+
+(* the next request is strictly increasing and is exactly (new misses + asked
+   last); the guard: new misses are not among the indexes asked last, because
+   those positions are filled from the reply (no dedup in the code) *)
+Theorem c16_next_request_strictly_increasing : forall misses expected,
+  strictly_increasing misses = true -> strictly_increasing expected = true ->
+  (forall i, In i misses -> ~ In i expected) ->
+  strictly_increasing (next_request true misses expected) = true /\
+  (forall i, In i (next_request true misses expected) <-> In i misses \/ In i expected).
+Proof. exact next_request_strictly_increasing. Qed.
+
+(* any number of rounds, local availability an arbitrary input of every event:
+   every request is strictly increasing, the exchange never panics, and a block
+   it yields carries the committed uncles in the committed order *)
+Theorem c16_rounds_never_other_uncles : forall (U : Type) (full : list U) events first st reqs fin,
+  rs_ok st = true ->
+  Forall (fun ev => strictly_increasing (fst ev) = true /\ local_ok full (snd ev)) events ->
+  run true full events first st = (reqs, fin) ->
+  Forall (fun r => rs_ok r = true) reqs /\ fin <> FPanic /\ fin <> FInvalid /\
+  (forall us, fin = FBlock us -> us = full).
+Proof. exact @rounds_sound. Qed.
+
+(* without the sort (misses ++ asked last): two uncles, uncle 1 found locally
+   when the compact block arrives and gone before the first reply is processed;
+   the second request is [1; 0], the honest reply passes BlockUnclesVerifier and
+   the block carries the uncles swapped.  Last conjunct (non-vacuity of the
+   theorem above): the same exchange with the sort yields the committed uncles *)
+Theorem c16_unsorted_request_refuted :
+  Forall (fun ev => strictly_increasing (fst ev) = true /\ local_ok ex_full (snd ev)) ex_events /\
+  run false ex_full ex_events true rs_empty = ([mkRS [1] [0]; mkRS [1] [1; 0]], FBlock [11; 10]%N) /\
+  uncles_verify true ex_full [1; 0] (honest_reply ex_full [1; 0]) = true /\
+  run true ex_full ex_events true rs_empty = ([mkRS [1] [0]; mkRS [1] [0; 1]], FBlock ex_full).
+Proof. exact unsorted_request_refuted. Qed.
+
 Redirect "out/C16.c16_decode_total_and_bounded" Print Assumptions c16_decode_total_and_bounded.
 Redirect "out/C16.c16_accepted_offsets_in_range" Print Assumptions c16_accepted_offsets_in_range.
 Redirect "out/C16.c16_strict_accepts_only_canonical" Print Assumptions c16_strict_accepts_only_canonical.
@@ -154,3 +217,8 @@ Redirect "out/C16.c16_reconstruct_header_refuted" Print Assumptions c16_reconstr
 Redirect "out/C16.c16_unverified_underflow" Print Assumptions c16_unverified_underflow.
 Redirect "out/C16.c16_verified_uncles_never_panic" Print Assumptions c16_verified_uncles_never_panic.
 Redirect "out/C16.c16_uncles_verify_old_refuted" Print Assumptions c16_uncles_verify_old_refuted.
+Redirect "out/C16.c16_sorted_request_consumed_in_place" Print Assumptions c16_sorted_request_consumed_in_place.
+Redirect "out/C16.c16_reconstruct_committed_uncles" Print Assumptions c16_reconstruct_committed_uncles.
+Redirect "out/C16.c16_next_request_strictly_increasing" Print Assumptions c16_next_request_strictly_increasing.
+Redirect "out/C16.c16_rounds_never_other_uncles" Print Assumptions c16_rounds_never_other_uncles.
+Redirect "out/C16.c16_unsorted_request_refuted" Print Assumptions c16_unsorted_request_refuted.
